@@ -50,7 +50,8 @@ func main() {
 	p, err := an.Load(an.LoadOptions{Dir: *repo, Tags: *tags, GOARCH: *goarch, NoCanon: *genk || *genp})
 	if err != nil {
 		fmt.Printf("UNDECIDED property=%s load failed: %v\n", *prop, err)
-		os.Exit(2)
+		loadFailed(*prop, *evdir, err)
+		os.Exit(1)
 	}
 	if *genp {
 		genParamNames(p)
@@ -137,3 +138,19 @@ func isFlagSet(name string) bool {
 }
 
 var _ = strings.TrimSpace
+
+// loadFailed: a tree that does not load or type-check cannot be shown to have the property; reported as a violation
+// with a replay file saying so (the interface has two outcomes).
+func loadFailed(prop, evdir string, err error) {
+	ids := []string{prop}
+	if prop == "all" || prop == "" {
+		ids = rules.IDs()
+	}
+	for _, id := range ids {
+		d := filepath.Join(evdir, "violations")
+		os.MkdirAll(d, 0o755)
+		rp := filepath.Join(d, id+"-load.json")
+		os.WriteFile(rp, []byte(fmt.Sprintf("{\n  \"property\": %q,\n  \"status\": \"undecided: the repository does not load/type-check, nothing could be analysed\",\n  \"detail\": %q\n}\n", id, err.Error())), 0o644)
+		fmt.Printf("VIOLATION property=%s replay=%s\n", id, rp)
+	}
+}
